@@ -185,6 +185,108 @@ def gen_etag_list(rng):
     return sep.join(('W/' if w else '') + '"' + v + '"' for w, v in tags), tags
 
 
+ETAGC = [chr(0x21)] + [chr(c) for c in range(0x23, 0x7F)] + ['\x80', '\xe9', '\xff']
+TCHAR = "!#$%&'*+-.^_`|~" + '0123456789' + 'abcdefghijklmnopqrstuvwxyzABCDEFGHIJKLMNOPQRSTUVWXYZ'
+COOKIE_OCTET = [chr(0x21)] + [chr(c) for c in list(range(0x23, 0x2C)) + list(range(0x2D, 0x3B)) + list(range(0x3C, 0x5C))
+                              + list(range(0x5D, 0x7F))]
+QDTEXT = ['\t', ' ', '!'] + [chr(c) for c in list(range(0x23, 0x5C)) + list(range(0x5D, 0x7F))]
+QPCHAR = ['\t'] + [chr(c) for c in range(0x20, 0x7F)]
+
+
+def rand_case(rng, name):
+    return ''.join(c.upper() if rng.random() < 0.5 else c.lower() for c in name)
+
+
+def ows(rng):
+    return rng.choice(['', '', ' ', '\t', '  ', ' \t'])
+
+
+def gen_etags_abnf(rng):
+    """If-Match = "*" / 1#entity-tag (RFC 9110): OWS "," OWS separators, any etagc incl. obs-text"""
+    if rng.random() < 0.08:
+        return '*'
+    tags = []
+    for _ in range(rng.randint(1, 5)):
+        v = ''.join(rng.choice(ETAGC) for _ in range(rng.choice([0, 1, 2, 3, 6, 12])))
+        tags.append(('W/' if rng.random() < 0.35 else '') + '"' + v + '"')
+    out = tags[0]
+    for t in tags[1:]:
+        out += ows(rng) + ',' + ows(rng) + t
+    return out
+
+
+def gen_cookie_abnf(rng):
+    """cookie-string = cookie-pair *( ";" SP cookie-pair ) (RFC 6265 4.2.1)"""
+    pairs = []
+    names = ['a', 'b', 'SID', 'sid', 'x-y', "!#$%&'*+-.^_`|~", 'tok_1', 'A']
+    for _ in range(rng.randint(1, 5)):
+        n = rng.choice(names) if rng.random() < 0.7 else ''.join(rng.choice(TCHAR) for _ in range(rng.randint(1, 5)))
+        v = ''.join(rng.choice(COOKIE_OCTET) for _ in range(rng.choice([0, 1, 2, 5, 9])))
+        if rng.random() < 0.3:
+            v = '"' + v + '"'
+        pairs.append(n + '=' + v)
+    return '; '.join(pairs)
+
+
+def gen_quoted(rng):
+    body = ''
+    for _ in range(rng.choice([0, 1, 2, 4, 8])):
+        if rng.random() < 0.25:
+            body += '\\' + rng.choice(QPCHAR)
+        else:
+            body += rng.choice(QDTEXT)
+    return '"' + body + '"'
+
+
+def gen_node_abnf(rng):
+    name = rng.choice(['192.0.2.43', '198.51.100.17', 'unknown', '_hidden', '_SEVKISEK', '_a.b-c_d', '[2001:db8:cafe::17]',
+                       '[::1]', '[::ffff:192.0.2.1]'])
+    port = rng.choice(['', '', ':4711', ':80', ':_obf', ':_x.y-z_1', ':0'])
+    v = name + port
+    return v if v[0] not in '[' and ':' not in v else '"' + v + '"'
+
+
+def gen_forwarded_abnf(rng):
+    """Forwarded = 1#forwarded-element (RFC 7239 4), parameters unique per element"""
+    elems = []
+    for _ in range(rng.randint(1, 4)):
+        keys = rng.sample(['for', 'by', 'host', 'proto', 'ext', 'x-y'], rng.randint(1, 4))
+        pairs = []
+        for k in keys:
+            if k in ('for', 'by'):
+                v = gen_node_abnf(rng)
+            elif k == 'host':
+                v = rng.choice(['example.com', '"example.com:8080"', 'h', '"[::1]:81"']) if rng.random() < 0.7 else gen_quoted(rng)
+            elif k == 'proto':
+                v = rng.choice(['http', 'https', 'HTTPS', '"https"', 'ws', 'Wss'])
+            else:
+                v = ''.join(rng.choice(TCHAR) for _ in range(rng.randint(1, 4))) if rng.random() < 0.5 else gen_quoted(rng)
+            pairs.append(rand_case(rng, k) + '=' + v)
+        text = pairs[0]
+        for p_ in pairs[1:]:
+            text += rng.choice([';', ';', ';;']) + p_
+        text = rng.choice(['', '', ';']) + text + rng.choice(['', '', ';'])
+        elems.append(text)
+    out = elems[0]
+    for e in elems[1:]:
+        out += ows(rng) + ',' + ows(rng) + e
+    return out
+
+
+def rfc_readings(model, op, values):
+    """the RFC-level reading (coq/C09/SpecRfc.v) of every distinct header value: {} -> not valid"""
+    uniq = sorted(set(values))
+    outs = model.run_many([[op, v] for v in uniq]) if uniq else []
+    return dict(zip(uniq, outs))
+
+
+def rfc_violation(ctx, accessor, stack, header, value, impl, rfc, extra=None):
+    d = {'what': 'valid %s header: req.%s differs from the RFC reading' % (header, accessor), 'accessor': accessor,
+         'stack': stack, 'header': header, 'value': value, 'impl': repr(impl), 'rfc': repr(rfc)}
+    d.update(extra or {})
+    ctx.violation('accessor-differs-from-rfc-reading', d, key='rfc-%s-%s' % (accessor, stack))
+
+
 def gen_cookie_header(rng):
     pairs = []
     for _ in range(rng.randint(1, 4)):
@@ -405,14 +507,20 @@ def check_etags(ctx, model, falcon, quick):
         vals.append((text, tags))
         if rng.random() < 0.6:
             vals.append((mutate(rng, text), None))
+    for _ in range(800 if quick else 8000):
+        text = gen_etags_abnf(rng)
+        vals.append((text, None))
+        if rng.random() < 0.4:
+            vals.append((mutate(rng, text), None))
     vals += [(s, None) for s in short_strings('Ww/"a,* ', 4 if quick else 5)]
+    rfc = rfc_readings(model, 30, [v for v, _ in vals])
     other_vals = ['"other"', 'W/"o1", "o2"', '*', '']
     for v, tags in vals:
         for stack, mk in (('wsgi', mk_wsgi), ('asgi', mk_asgi)):
             attr = rng.choice(['if_match', 'if_none_match'])
             other = 'if_none_match' if attr == 'if_match' else 'if_match'
             ov = rng.choice(other_vals)
-            req = mk(falcon, [(attr.replace('_', '-'), v), (other.replace('_', '-'), ov)])
+            req = mk(falcon, [(rand_case(rng, attr.replace('_', '-')), v), (rand_case(rng, other.replace('_', '-')), ov)])
             if rng.random() < 0.5:      # the twin accessor is read first: its cache must not leak
                 oa = read(falcon, req, other, etag_obs)
                 a, b = twice(falcon, req, attr, etag_obs)
@@ -424,9 +532,14 @@ def check_etags(ctx, model, falcon, quick):
     for (v, tags, stack, attr, a, b), out in sec.run():
         mod = (0, m_etags(out))
         ctx.count('etags')
+        if rfc.get(v):
+            ctx.count('etags-valid')
         ctx.note_case(('etag', stack, v), a[0] == 0 and a[1] is not None)
         if a[0] == 2:
             crash_violation(ctx, attr, stack, attr, v, a)
+        elif tags is None and v in rfc and rfc[v] and a != (0, m_etags(rfc[v])):
+            # the proved recogniser accepts the value: the accessor must return exactly its reading
+            rfc_violation(ctx, attr, stack, attr, v, a, m_etags(rfc[v]))
         elif tags is not None and a != (0, [t if t == ('*',) else (t[0], t[1]) for t in tags]):
             # RFC reading of a generated valid list = the list it was rendered from
             ctx.violation('accessor-differs-from-rfc-reading',
@@ -447,10 +560,16 @@ def check_cookies(ctx, model, falcon, quick, fixed=True):
         vals.append(v)
         if rng.random() < 0.5:
             vals.append(mutate(rng, v))
+    for _ in range(800 if quick else 8000):
+        v = gen_cookie_abnf(rng)
+        vals.append(v)
+        if rng.random() < 0.4:
+            vals.append(mutate(rng, v))
     vals += list(short_strings('a=;" \\b', 4 if quick else 5))
+    rfc = rfc_readings(model, 31, vals)
     for v in vals:
         for stack, mk in (('wsgi', mk_wsgi), ('asgi', mk_asgi)):
-            req = mk(falcon, [('Cookie', v)])
+            req = mk(falcon, [(rand_case(rng, 'Cookie'), v)])
             a, b = twice(falcon, req, 'cookies', dict)
             sec.add([7, fixed, [v]], (v, stack, a, b, req))
     for (v, stack, a, b, req), out in sec.run():
@@ -464,6 +583,18 @@ def check_cookies(ctx, model, falcon, quick, fixed=True):
         if a[0] == 2:
             crash_violation(ctx, 'cookies', stack, 'Cookie', v, a)
             continue
+        if rfc.get(v):
+            # valid cookie-string: pairs in order, grouped by name, quoted values through the _unquote oracle
+            grouped = {common.wstr(n): [common.wstr(x[1]) if x[0] == 0 else http.cookies._unquote(common.wstr(x[1]))
+                                        for x in vs] for n, vs in rfc[v][0][1]}
+            ctx.count('cookies-valid')
+            if a != (0, {k: l[0] for k, l in grouped.items()}):
+                rfc_violation(ctx, 'cookies', stack, 'Cookie', v, a, grouped)
+                continue
+            bad = [(k, req.get_cookie_values(k)) for k, l in grouped.items() if req.get_cookie_values(k) != l]
+            if bad or req.get_cookie_values('no-such-cookie') is not None:
+                rfc_violation(ctx, 'get_cookie_values', stack, 'Cookie', v, bad, grouped)
+                continue
         if a != b:
             unstable_violation(ctx, 'cookies', stack, 'Cookie', v, a, b)
         elif a != mod:
@@ -500,22 +631,28 @@ def check_forwarded(ctx, model, falcon, quick, fixed=True):
         vals.append(v)
         if rng.random() < 0.5:
             vals.append(mutate(rng, v))
+    for _ in range(900 if quick else 9000):
+        v = gen_forwarded_abnf(rng)
+        vals.append(v)
+        if rng.random() < 0.4:
+            vals.append(mutate(rng, v))
     for n in range(0, (3 if quick else 4) + 1):
         for t in itertools.product(FWD_TOKENS, repeat=n):
             vals.append(''.join(t))
     for v in vals:
         for stack, mk in (('wsgi', mk_wsgi), ('asgi', mk_asgi)):
-            hdrs = [('Forwarded', v)]
+            hdrs = [(rand_case(rng, 'Forwarded'), v)]
             xff = xreal = xproto = xhost = None
             if rng.random() < 0.2:
                 hdrs = []
                 v_used = None
                 if rng.random() < 0.7:
-                    xff = rng.choice(['1.1.1.1', ' 1.1.1.1 , 2.2.2.2', '', ',', REMOTE, 'a, ' + REMOTE])
-                    hdrs.append(('X-Forwarded-For', xff))
+                    xff = rng.choice(['1.1.1.1', ' 1.1.1.1 , 2.2.2.2', '', ',', REMOTE, 'a, ' + REMOTE, '1.1.1.1,2.2.2.2',
+                                      '2001:db8::1 ,\t192.0.2.1', '1.1.1.1, ', 'a b, c'])
+                    hdrs.append((rand_case(rng, 'X-Forwarded-For'), xff))
                 if rng.random() < 0.5:
                     xreal = rng.choice(['3.3.3.3', '', REMOTE])
-                    hdrs.append(('X-Real-IP', xreal))
+                    hdrs.append((rand_case(rng, 'X-Real-IP'), xreal))
                 if rng.random() < 0.5:
                     xproto = rng.choice(['HTTPS', 'http', ''])
                     hdrs.append(('X-Forwarded-Proto', xproto))
@@ -524,6 +661,15 @@ def check_forwarded(ctx, model, falcon, quick, fixed=True):
                     hdrs.append(('X-Forwarded-Host', xhost))
             else:
                 v_used = v
+                if rng.random() < 0.3:      # lower-priority headers next to Forwarded: they must be ignored
+                    xff = rng.choice(['7.7.7.7', '7.7.7.7, 8.8.8.8'])
+                    hdrs.append((rand_case(rng, 'X-Forwarded-For'), xff))
+                    xreal = '6.6.6.6'
+                    hdrs.append((rand_case(rng, 'X-Real-IP'), xreal))
+                    xproto = rng.choice(['ftp', 'HTTPS'])
+                    hdrs.append((rand_case(rng, 'X-Forwarded-Proto'), xproto))
+                    xhost = 'xf.example.com'
+                    hdrs.append((rand_case(rng, 'X-Forwarded-Host'), xhost))
             remote = rng.choice([REMOTE, REMOTE, None, '192.0.2.43'])
             req = mk(falcon, hdrs + [('Host', 'h.example.com:81')], remote=remote)
             f, f2 = twice(falcon, req, 'forwarded', fwd_obs)
@@ -536,20 +682,42 @@ def check_forwarded(ctx, model, falcon, quick, fixed=True):
             sec.add([9, fixed, stack == 'asgi', common_opt(v_used), common_opt(xff), common_opt(xreal), mremote], None)
             sec.add([11, common_opt(v_used), common_opt(xproto), 'http'], None)
             sec.add([12, common_opt(v_used), common_opt(xhost), 'h.example.com:81'], None)
+            # RFC-level readings (binding when the value is in the valid language)
+            sec.add([32, v_used or ''], None)
+            sec.add([33, stack == 'asgi', common_opt(v_used), common_opt(xff), common_opt(xreal), mremote], None)
+            sec.add([34, common_opt(v_used), common_opt(xproto), 'http'], None)
+            sec.add([35, common_opt(v_used), common_opt(xhost), 'h.example.com:81'], None)
     res = list(sec.run())
-    for i in range(0, len(res), 4):
+    for i in range(0, len(res), 8):
         (v, stack, hdrs, remote, f, f2, r, r2, fs, fs2, fh, fh2), out = res[i]
         mf = (0, [tuple(common.wopt(x, common.wstr) for x in e) for e in out] if v is not None else None)
         mr = m_res(res[i + 1][1], lambda l: [common.wstr(x) for x in l])
         mfs = (0, common.wstr(res[i + 2][1]))
         mfh = (0, common.wstr(res[i + 3][1]))
         ctx.count('forwarded')
+        for j, nm in ((4, 'forwarded-valid'), (5, 'access_route-valid'), (6, 'forwarded_scheme-valid'),
+                      (7, 'forwarded_host-valid')):
+            if res[i + j][1] and (j != 4 or v is not None):
+                ctx.count(nm)
         ctx.note_case(('fwd', stack, repr(hdrs), remote), f[0] == 0 and bool(f[1]))
         crashed = [(nm, o) for nm, o in (('forwarded', f), ('access_route', r), ('forwarded_scheme', fs),
                                          ('forwarded_host', fh)) if o[0] == 2]
         if crashed:
             crash_violation(ctx, crashed[0][0], stack, 'Forwarded', v, crashed[0][1],
                             {'headers': hdrs, 'shape': 'forwarded-node-port-not-a-number'})
+        elif v is not None and res[i + 4][1] and f != (0, [tuple(common.wopt(x, common.wstr) for x in e)
+                                                             for e in res[i + 4][1][0]]):
+            rfc_violation(ctx, 'forwarded', stack, 'Forwarded', v, f,
+                          [tuple(common.wopt(x, common.wstr) for x in e) for e in res[i + 4][1][0]], {'headers': hdrs})
+        elif res[i + 5][1] and r != (0, [common.wstr(x) for x in res[i + 5][1][0]]):
+            rfc_violation(ctx, 'access_route', stack, 'Forwarded', v, r, [common.wstr(x) for x in res[i + 5][1][0]],
+                          {'headers': hdrs, 'remote': remote})
+        elif res[i + 6][1] and fs != (0, common.wstr(res[i + 6][1][0])):
+            rfc_violation(ctx, 'forwarded_scheme', stack, 'Forwarded', v, fs, common.wstr(res[i + 6][1][0]),
+                          {'headers': hdrs})
+        elif res[i + 7][1] and fh != (0, common.wstr(res[i + 7][1][0])):
+            rfc_violation(ctx, 'forwarded_host', stack, 'Forwarded', v, fh, common.wstr(res[i + 7][1][0]),
+                          {'headers': hdrs})
         elif (f, r, fs, fh) != (f2, r2, fs2, fh2):
             unstable_violation(ctx, 'forwarded/access_route', stack, 'Forwarded', v, (f, r, fs, fh), (f2, r2, fs2, fh2))
         elif f != mf:
